@@ -322,7 +322,7 @@ def check_spec(ctx, spec):
 def run_shard(desc, ctx):
     rng = random.Random(desc["seed"])
     for _ in range(desc["n"]):
-        check_spec(ctx, gen_spec(rng))
+        check_spec(ctx, G.maybe_prior(rng, gen_spec(rng)))
 
 
 def replay(data, ctx):
